@@ -6,6 +6,8 @@
 // bodies below are never run by the library.
 package verifspec
 
+import "unsafe"
+
 // Eq is structural equality: field-wise on structs, observational on
 // Option/Try (payload compared only when present), extensional on functions,
 // element-wise on slices, identity on pointers.
@@ -107,3 +109,38 @@ func VisitedCount[K comparable, V any](m map[K]V) int  { panic("verifspec: ghost
 
 // IterPosAtEntry: inside a loop invariant: IterPos(it) when the loop was first reached.
 func IterPosAtEntry(it any) int { panic("verifspec: ghost function") }
+
+// Concurrency (rely/guarantee).  The code under contract runs as one thread;
+// the other threads are the "environment".  SetRelyPtr / SetRelyValue declare
+// what the environment may do to an atomic cell between two of our atomic
+// steps (old and new content of the cell); every atomic load and
+// compare-and-swap first lets the environment take such a step.
+// SetGuaranteePtr / SetGuaranteeValue declare what our own atomic writes may
+// do; each store / successful compare-and-swap generates the obligation that
+// it is such a step.  The ...Ptr forms are for sync/atomic pointer cells, the
+// ...Value forms for sync/atomic.Value.
+func SetRelyPtr(f func(old, new unsafe.Pointer) bool)      {}
+func SetGuaranteePtr(f func(old, new unsafe.Pointer) bool) {}
+func SetRelyValue(f func(old, new any) bool)               {}
+func SetGuaranteeValue(f func(old, new any) bool)          {}
+
+// Holding: the current thread holds the mutex m (a *sync.Mutex).
+func Holding(m any) bool { panic("verifspec: ghost function") }
+
+// Spawned: number of tasks started with a go statement that have not run yet;
+// RunSpawned runs them all, one after the other, until none is left.
+func Spawned() int { panic("verifspec: ghost function") }
+func RunSpawned()  {}
+
+// AtomicWrites: number of successful atomic writes (Store, successful
+// CompareAndSwap) performed by the code under contract so far.
+func AtomicWrites() int { panic("verifspec: ghost function") }
+
+// CalledOnce: the code under contract invoked exactly one user callback, namely f, with argument arg.
+func CalledOnce(f any, arg any) bool { panic("verifspec: ghost function") }
+
+// TraceLen: number of user-callback invocations so far (since Begin, or since the lemma started).
+func TraceLen() int { panic("verifspec: ghost function") }
+
+// TraceCall(i, f, arg): the i-th user-callback invocation was f(arg).
+func TraceCall(i int, f any, arg any) bool { panic("verifspec: ghost function") }
